@@ -20,7 +20,7 @@ REQUIRED_THEOREMS = ['is_sqr_iff', 'is_sqr_euler', 'sqrt_zero_inv_raises', 'sqrt
                      'ext_sqrt_ts_partial', 'bin_sqrt', 'bin_sqrt_inv']
 RULE = ('case = (field, element, INV flag); EVERY element of every field of order q <= 128 (quick; all prime powers: '
         'p = 2, p = 3 mod 4, p = 1 mod 4, extension fields with q = 1 and 3 mod 4, binary fields) plus a seeded sample of '
-        'fields with 128 < q <= 1000 (thorough: every q <= 1000), plus random squares x*x and random elements of '
+        'fields with 128 < q <= 1000 (thorough: every q <= 500 and 64 sampled fields up to 1000), plus random squares x*x and random elements of '
         '64/255/256-bit primes (both residues mod 4), GF(2^8), GF(3^5), GF(5^4), GF(3^10), GF(2^16); is_sqr, sqrt, '
         'sqrt(INV=True) each compared real vs model, and real vs brute-force squares; distinct = distinct (field, element, op)')
 EXPLANATION = ('proved for all inputs: is_sqr in every prime field (the jacobi stub equals the Legendre symbol), sqrt and '
@@ -104,29 +104,28 @@ def property_failures(w, a, issq, rt, rti):
 
 
 def fields_for(ctx):
-    lim_all = 1000 if ctx.thorough else 128
+    lim_all = 500 if ctx.thorough else 128
     fs = fc.prime_power_fields(lim_all)
     seen = {f.name for f in fs}
-    if not ctx.thorough:
-        more = [f for f in fc.prime_power_fields(1000) if f.name not in seen]
-        # always some of each kind
-        rng = ctx.subrng('fields')
-        picks = rng.sample(more, 8)
-        for want in (lambda f: f.kind == 'ext' and f.q % 4 == 1, lambda f: f.kind == 'ext' and f.q % 4 == 3,
-                     lambda f: f.kind == 'bin', lambda f: f.kind == 'prime' and f.p % 4 == 1):
-            c = [f for f in more if want(f)]
-            if c:
-                picks.append(rng.choice(c))
-        for f in picks:
-            if f.name not in seen:
-                seen.add(f.name)
-                fs.append(f)
+    more = [f for f in fc.prime_power_fields(1000) if f.name not in seen]
+    rng = ctx.subrng('fields')
+    picks = rng.sample(more, 60 if ctx.thorough else 8)
+    # always some of each kind
+    for want in (lambda f: f.kind == 'ext' and f.q % 4 == 1, lambda f: f.kind == 'ext' and f.q % 4 == 3,
+                 lambda f: f.kind == 'bin', lambda f: f.kind == 'prime' and f.p % 4 == 1):
+        c = [f for f in more if want(f)]
+        if c:
+            picks.append(rng.choice(c))
+    for f in picks:
+        if f.name not in seen:
+            seen.add(f.name)
+            fs.append(f)
     return fs
 
 
 def big_jobs(ctx):
     rng = ctx.subrng('big')
-    n = ctx.scale(40, 1500)
+    n = ctx.scale(40, 800)
     out = []
     bigs = [fc.field(fc.P64), fc.field(fc.P64B), fc.field(fc.P256), fc.field(fc.P255), fc.field(2, fc.AES),
             fc.field(3, fc.irreducible(3, 5)), fc.field(5, fc.irreducible(5, 4)), fc.field(3, fc.irreducible(3, 10)),
